@@ -84,9 +84,10 @@ type Interp struct {
 	allocLimit int64
 	maxLen     int
 
-	fs       *fsModel
-	hashes   []*hashModel
-	tolerant int // >0 while running package initialisers
+	fs        *fsModel
+	reflTypes map[string]*Loc // reflect model: interned type locations
+	hashes    []*hashModel
+	tolerant  int // >0 while running package initialisers
 
 	sums        []*hashSum
 	jsonBlobs   []IfaceV
